@@ -1055,6 +1055,19 @@ def bloch_messiah(S, tol=1e-10, rounding=9):
         stop_is = list(np.cumsum([len(res) for res in result]))
         start_is = [0] + stop_is[:-1]
 
+        # The eigenspace of the singular value 1 (unsqueezed modes) is mapped onto itself by
+        # omega, so an arbitrary orthonormal eigenbasis of it does not split into an "x" and
+        # a "p" half. Pick a basis (b_j, a_j) adapted to omega from the eigenvectors
+        # a_j + i b_j (eigenvalue +1) of the Hermitian matrix i * omega restricted to it.
+        for start_i, stop_i in zip(start_is, stop_is):
+            k = stop_i - start_i
+            if k > 1 and np.round(st[start_i, start_i], rounding) == 1:
+                idx = list(range(start_i, stop_i)) + list(range(n + start_i, n + stop_i))
+                _, vecs = np.linalg.eigh(1j * qomega[np.ix_(idx, idx)])
+                vecs = np.sqrt(2) * vecs[:, k:]
+                ut[:, idx] = ut[:, idx] @ np.hstack([vecs.imag, vecs.real])
+                qomega = np.transpose(ut) @ (omega) @ ut
+
         # Rotation matrices (not permutations) based on svd.
         # See Appendix B2 of Serafini's book for more details.
         u_list, v_list = [], []
@@ -1068,7 +1081,7 @@ def bloch_messiah(S, tol=1e-10, rounding=9):
         pmat1 = block_diag(*(u_list + v_list))
 
         st1 = pmat1.T @ pmat @ np.diag(ss) @ pmat @ pmat1
-        ut1 = uss @ pmat @ pmat1
+        ut1 = ut @ pmat1
         v1 = np.transpose(ut1) @ u
 
     else:
